@@ -91,6 +91,7 @@ def judge(ctx, g, doc, opts, text, out, fails, case):
         out_edges.setdefault(e["tail"], []).append(e)
     want = Counter()
     got = Counter()
+    want_annotated = []
     label_of = None
     from prov.dot import DOT_PROV_STYLE
     n_rel = 0
@@ -103,6 +104,9 @@ def judge(ctx, g, doc, opts, text, out, fails, case):
                 if q0 is not None and q1 is not None:      # the property speaks of relations with two endpoints
                     want[(lbl, dot_parsed(q0.uri), dot_parsed(q1.uri))] += 1
                     n_rel += 1
+                    others = [(a, v) for (a, v) in r.attributes if a not in PROV_ATTRIBUTE_QNAMES]
+                    if others and opts.get("show_relation_attributes", True):
+                        want_annotated.append((lbl, dot_parsed(q0.uri), dot_parsed(q1.uri), [str(a) for (a, _v) in others]))
     for e in graph["edges"]:
         if e["label"] is None or e["tail"].startswith("ann"):
             continue
@@ -119,6 +123,28 @@ def judge(ctx, g, doc, opts, text, out, fails, case):
             continue        # n-ary extra segment (labelled with the attribute name)
         else:
             got[(e["label"], t["url"], h["url"])] += 1
+    # annotated relations: drawn through a blank node that carries a note listing every non-reference attribute (the time
+    # of a generation is one of them even when it is the only one)
+    ann_of_blank = {}
+    for e in graph["edges"]:
+        if e["tail"].startswith("ann") and e["style"] == "dashed" and by_name.get(e["head"], {}).get("shape") == "point":
+            ann_of_blank.setdefault(e["head"], []).append(by_name[e["tail"]]["label"])
+    blank_paths = {}
+    for e in graph["edges"]:
+        if e["label"] is not None and not e["tail"].startswith("ann"):
+            h_ = by_name[e["head"]]
+            if h_["shape"] == "point" and h_["name"].startswith("b") and e["arrowhead"] == "none":
+                seconds = [x for x in out_edges.get(h_["name"], []) if x["label"] is None]
+                if len(seconds) == 1:
+                    key = (e["label"], by_name[e["tail"]]["url"], by_name[seconds[0]["head"]]["url"])
+                    blank_paths.setdefault(key, []).append(h_["name"])
+    for (lbl, u0, u1, names) in want_annotated:
+        blanks = blank_paths.get((lbl, u0, u1), [])
+        labels = [" ".join(ann_of_blank.get(b_, [])) for b_ in blanks]
+        if not any(all(html.escape(n) in lab for n in names) for lab in labels):
+            fails.append(Failure("oracle", None, "relation %s(%s, %s) has attributes %s but no annotation showing them (drawn through %d blank node(s))" % (
+                lbl, u0, u1, names, len(blanks)), case))
+            break
     got = Counter({k: v for k, v in got.items() if k[1] is not None and k[2] is not None})
     if got != want:
         fails.append(Failure("oracle", None, "relation paths differ: missing %s / unexpected %s" % (
